@@ -199,3 +199,51 @@ CONTRACTS += [
                     3: Loop('inv_true', vars={'forced_task': TaskU, '_': U('Val', plain=True)}, step={'recomputed': 'mc_recompute_step'})},
              l0=['A-dict', 'A-set', 'A-nx'], searchable=False),
 ]
+
+
+# ------------------------------------------------------------------------------------------------
+# Chain._expand_tasks  (C08: pattern inputs)
+# ------------------------------------------------------------------------------------------------
+import re as _re
+from pyvc.prims import empty_seq
+
+
+def ns_of(name):
+    return name.split('::')[:-1]
+
+
+def pattern_hit(input_task, current_task_name, task_name):
+    """a task matches a pattern input when its local name (group included) fully matches the pattern and it lives in the
+    namespace of the declaring task - or anywhere, for a `~~` pattern"""
+    return all_of(_re.fullmatch(input_task.lstrip('~'), task_name.split('::')[-1]),
+                  any_of(ns_of(current_task_name) == ns_of(task_name), input_task.startswith('~~')))
+
+
+def expand_one(input_task, tasks, current_task_name):
+    return [input_task] if not input_task.startswith('~') else [t for t in tasks if pattern_hit(input_task, current_task_name, t)]
+
+
+def expand_spec(input_tasks, tasks, current_task_name):
+    """declared inputs in order; every pattern replaced, in place, by the matching tasks in chain order"""
+    return seq_fold(lambda acc, it: acc + expand_one(it, tasks, current_task_name), empty_seq('Str'), input_tasks)
+
+
+def exp_outer(done, expanded_tasks, tasks, current_task_name):
+    return expanded_tasks == expand_spec(done, tasks, current_task_name)
+
+
+def exp_inner(done, expanded_tasks, entry_expanded_tasks, input_task, current_task_name):
+    return expanded_tasks == entry_expanded_tasks + [t for t in done if pattern_hit(input_task, current_task_name, t)]
+
+
+def exp_post(input_tasks, tasks, current_task_name, result):
+    return result == expand_spec(input_tasks, tasks, current_task_name)
+
+
+CONTRACTS += [
+    Contract(id='CH.expand_tasks', target='taskchain.chain:Chain._expand_tasks', props={'C08': 'decisive'},
+             inputs={'input_tasks': S(Seq(Str), 'input_tasks'), 'tasks': S(Seq(Str), 'tasks'), 'current_task_name': S(Str, 'current_task_name')},
+             loops={0: Loop('exp_outer', vars={'input_task': Str, 'task_name': Str, 'namespace_check': Bool}, cells={'expanded_tasks': Seq(Str)}),
+                    1: Loop('exp_inner', vars={'task_name': Str, 'namespace_check': Bool}, cells={'expanded_tasks': Seq(Str)})},
+             ensures={'expansion': 'exp_post'}, l0=['A-re', 'A-split', 'A-str'], searchable=False),
+]
